@@ -177,6 +177,8 @@ type diffRes struct {
 	strDiff  string // C18
 	firstOp  byte
 	topSteps int
+	// offDomain: a journal-range byte was executed (see diffOnce)
+	offDomain bool
 }
 
 type sutOpts struct {
@@ -248,6 +250,17 @@ func diffOnce(sc *Scenario) *diffRes {
 		}
 		if (g != "" || st != "") && at < len(se) && d.firstOp == 0 {
 			d.firstOp = se[at].Op
+		}
+		// C01/C02/C18 are stated for standard opcodes only. A raw PUSHn byte can swallow
+		// the following macros as immediate data and so shift decoding into what the
+		// assembler wrote as PUSH data; if that makes either interpreter execute a byte in
+		// the journal range the program is outside the domain of these properties.
+		for _, evs := range [][]*Ev{se, re} {
+			for _, e := range evs {
+				if (e.K == evStep || e.K == evFault) && e.Op >= 0xe0 && e.Op <= 0xe7 {
+					d.offDomain = true
+				}
+			}
 		}
 	}
 	return d
@@ -323,6 +336,10 @@ func diffCheck(prop string) func(sc *Scenario, st *Stats) []Violation {
 			vs = append(vs, Violation{Prop: prop, Rule: rule, Sig: sig, Msg: msg, Sc: scn})
 		}
 		report := func(d *diffRes, tag string, scn *Scenario) {
+			if d.offDomain {
+				st.Probes["skipped-journal-byte-executed"]++
+				return
+			}
 			switch prop {
 			case "C01":
 				if d.resDiff != "" {
@@ -417,7 +434,7 @@ func diffCheck(prop string) func(sc *Scenario, st *Stats) []Violation {
 			}
 		}
 		// host configuration axes must not change anything (C01 only)
-		if prop == "C01" {
+		if prop == "C01" && !d.offDomain {
 			variants := []struct {
 				name string
 				o    sutOpts
